@@ -11,7 +11,9 @@ import (
 // case is what gets reported, quickly.
 var sweepFailed bool
 
-// TestExh_C16 enumerates the byte offsets completely: for each direction and every k from 0
+// TestExh_C16 first runs a handful of directed histories (one per session script and per way
+// of ending a session, without and with a 5 ms delay of the close notification), then
+// enumerates the byte offsets completely: for each direction and every k from 0
 // to the size of a whole healthy handshake (connect, register, configure, synchronize) plus
 // two, the history [Start with the connection cut after k bytes] followed by the epilogue
 // every case gets (Wait returns, notifications, a fresh healthy Start, a probe, Stop). Both
@@ -46,6 +48,45 @@ func TestExh_C16(t *testing.T) {
 			t.Fatalf("C16 sweep: %s", o.Fail)
 		}
 	}
+	// directed histories: one per session script and per way of ending a session, each
+	// followed by the epilogue
+	sc := func(kind string) *Script { return &Script{Kind: kind, Activate: true} }
+	var directed [][]Action
+	directed = append(directed,
+		[]Action{{Op: "start", Script: sc("healthy")}, {Op: "wait"}, {Op: "probe"}, {Op: "stop"}, {Op: "wait"}},
+		[]Action{{Op: "start", Script: sc("healthy")}, {Op: "wait"}, {Op: "drop"}, {Op: "wait"}},
+		[]Action{{Op: "start", Script: sc("unreachable")}, {Op: "wait"}, {Op: "stop"}},
+	)
+	if !ev.Known(knownD10) {
+		directed = append(directed,
+			[]Action{{Op: "start", Script: sc("refused")}, {Op: "wait"}},
+			[]Action{{Op: "start", Script: &Script{Kind: "refused", CloseAfter: true}}, {Op: "stop"}},
+		)
+		if !ev.Known(knownD8) {
+			for _, ms := range []int{0, 2, 20} {
+				directed = append(directed, []Action{{Op: "start", Script: &Script{Kind: "regdrop", DropMs: ms}}, {Op: "wait"}})
+			}
+		}
+	}
+	if !ev.Known(knownD9) {
+		directed = append(directed,
+			[]Action{{Op: "start", Script: sc("healthy")}, {Op: "restart", Script: sc("healthy")}, {Op: "probe"}},
+			[]Action{{Op: "start", Script: sc("healthy")}, {Op: "wait"}, {Op: "restart", Script: sc("healthy")}, {Op: "restart", Script: sc("healthy")}, {Op: "probe"}},
+		)
+		if !ev.Known(knownD10) {
+			directed = append(directed,
+				[]Action{{Op: "start", Script: &Script{Kind: "refused", Fast: true}}, {Op: "start", Script: sc("healthy")}, {Op: "probe"}},
+				[]Action{{Op: "start", Script: sc("healthy")}, {Op: "restart", Script: &Script{Kind: "cut", Dir: "s2r", K: 0, Fast: true}}, {Op: "start", Script: sc("healthy")}, {Op: "probe"}},
+			)
+		}
+	}
+	for _, acts := range directed {
+		for _, dl := range [][]int{nil, {5}} {
+			run(C16Case{Actions: acts, DelayConnClosed: dl})
+		}
+	}
+	r.SetExtra("directed_cases", n)
+
 	for d := 0; d < 2; d++ {
 		if d == r2s && ev.Known(knownD8) {
 			complete = false
